@@ -120,4 +120,5 @@ let () =
               else "ok"
           | _ -> "fail:observation-does-not-fit" in
         Mlutil.print_model m verdict
+    | "asm19", _ -> Mlutil.asm_case outs
     | _ -> Mlutil.print_model ["UNKNOWN-KIND"] "ok")
